@@ -15,7 +15,9 @@ for v in a b; do
     echo "$PROP/$v: NOT CONFIRMED"; echo "$res" | sed 's/^/    /'; continue
   fi
   # next free letter (flock: several intakes of the same property never run, but be safe)
-  for l in a b c d e f g h i j k l m n o p q r s t u v w x y z; do [ -e "$VERIF/seeded/$PROP$l" ] || break; done
+  # the letter after the highest one in use (ids of removed seeds are not re-used: DESIGN.md still names them)
+  last=$(ls -d "$VERIF"/seeded/$PROP[a-z] 2>/dev/null | sed 's/.*\(.\)$/\1/' | sort | tail -1)
+  l=$(echo "${last:-\`}" | tr '`a-y' 'a-z')
   id="$PROP$l"; t="$VERIF/seeded/$id"; mkdir -p "$t"
   cp "$d/patch.diff" "$t/"; cp -r "$d/demo" "$t/"; [ -f "$d/notes.md" ] && cp "$d/notes.md" "$t/"
   rm -f "$t/demo/with.txt" "$t/demo/without.txt"
